@@ -1,5 +1,324 @@
-//! (stub)
+//! C10 — score laws and the candidate / window pre-filter that clustering relies on.
+
+use crate::c02::{cj, cparse, Content};
 use crate::common::*;
-use serde_json::Value;
-pub fn replay(_c: &Value) -> Result<(), String> { Err("not implemented".into()) }
-pub fn run(_ctx: &Ctx) -> Report { Report::new("model_checking") }
+use crate::corpus::ramp;
+use refmodel::text as rt;
+use serde_json::{json, Value};
+use ssdeep::{FuzzyHash, FuzzyHashCompareTarget, LongFuzzyHash};
+use std::collections::BTreeSet;
+
+/// reference: 7-gram windows tagged with the effective log block size
+fn ref_windows(c: &Content) -> BTreeSet<(u8, Vec<u8>)> {
+    let mut s = BTreeSet::new();
+    for w in c.1.windows(7) {
+        s.insert((c.0, w.to_vec()));
+    }
+    for w in c.2.windows(7) {
+        s.insert((c.0 + 1, w.to_vec()));
+    }
+    s
+}
+
+/// Per-hash checks: window iterators against the definitions.
+fn check_single(c: &Content) -> Result<Vec<u64>, String> {
+    macro_rules! windows {
+        ($h:expr) => {{
+            let h = $h;
+            let mut idx = vec![];
+            for (k, (bh, eff)) in [(h.block_hash_1(), c.0 as u64), (h.block_hash_2(), c.0 as u64 + 1)].iter().enumerate() {
+                let slices: Vec<&[u8]> = if k == 0 { h.block_hash_1_windows().collect() } else { h.block_hash_2_windows().collect() };
+                let nums: Vec<u64> = if k == 0 { h.block_hash_1_numeric_windows().collect() } else { h.block_hash_2_numeric_windows().collect() };
+                let inds: Vec<u64> = if k == 0 { h.block_hash_1_index_windows().collect() } else { h.block_hash_2_index_windows().collect() };
+                let n = bh.len().saturating_sub(6);
+                let (ln, li) = if k == 0 {
+                    (h.block_hash_1_numeric_windows().len(), h.block_hash_1_index_windows().len())
+                } else {
+                    (h.block_hash_2_numeric_windows().len(), h.block_hash_2_index_windows().len())
+                };
+                let hint = if k == 0 { h.block_hash_1_index_windows().size_hint() } else { h.block_hash_2_index_windows().size_hint() };
+                if slices.len() != n || nums.len() != n || inds.len() != n || ln != n || li != n || hint != (n, Some(n)) {
+                    return Err(format!("window iterator lengths: slices {} numeric {} index {} len() {} / {} expected {}", slices.len(), nums.len(), inds.len(), ln, li, n));
+                }
+                for i in 0..n {
+                    if slices[i] != &bh[i..i + 7] {
+                        return Err(format!("block_hash_{}_windows()[{}] is not the slice at {}", k + 1, i, i));
+                    }
+                    let v = refmodel::numeric_window(&bh[i..i + 7]);
+                    if nums[i] != v {
+                        return Err(format!("numeric window {} of block hash {} = {:#x} expected {:#x}", i, k + 1, nums[i], v));
+                    }
+                    if inds[i] != (v | (eff << 42)) {
+                        return Err(format!("index window {} of block hash {} = {:#x} expected {:#x} (effective log {})", i, k + 1, inds[i], v | (eff << 42), eff));
+                    }
+                    idx.push(inds[i]);
+                }
+            }
+            idx
+        }};
+    }
+    let l = guarded(|| LongFuzzyHash::new_from_internals_near_raw(c.0, &c.1, &c.2))?;
+    let idx_long: Vec<u64> = guarded(|| -> Result<Vec<u64>, String> { Ok(windows!(&l)) })??;
+    if c.2.len() <= 32 {
+        let s = guarded(|| FuzzyHash::new_from_internals_near_raw(c.0, &c.1, &c.2))?;
+        let idx_short: Vec<u64> = guarded(|| -> Result<Vec<u64>, String> { Ok(windows!(&s)) })??;
+        if idx_short != idx_long {
+            return Err("short and long forms give different index windows".into());
+        }
+    }
+    Ok(idx_long)
+}
+
+/// Pair laws.
+fn check_pair(a: &Content, b: &Content, ia: &[u64], ib: &[u64]) -> Result<(u32, bool), String> {
+    let la = LongFuzzyHash::new_from_internals_near_raw(a.0, &a.1, &a.2);
+    let lb = LongFuzzyHash::new_from_internals_near_raw(b.0, &b.1, &b.2);
+    let sab = guarded(|| la.compare(&lb))?;
+    let sba = guarded(|| lb.compare(&la))?;
+    if sab > 100 {
+        return Err(format!("score {} out of 0..=100", sab));
+    }
+    if sab != sba {
+        return Err(format!("not symmetric: compare(a,b) = {} compare(b,a) = {}", sab, sba));
+    }
+    if guarded(|| la.compare(&la))? != 100 {
+        return Err("compare(a,a) != 100".into());
+    }
+    let far = (a.0 as i32 - b.0 as i32).abs() > 1;
+    if far && sab != 0 {
+        return Err(format!("block sizes differ by more than a factor of two but score = {}", sab));
+    }
+    let ta = FuzzyHashCompareTarget::from(&la);
+    let tb = FuzzyHashCompareTarget::from(&lb);
+    let cand = guarded(|| ta.is_comparison_candidate(&lb))?;
+    let cand_rev = guarded(|| tb.is_comparison_candidate(&la))?;
+    if cand != cand_rev {
+        return Err(format!("candidate test not symmetric: {} vs {}", cand, cand_rev));
+    }
+    if guarded(|| ta.compare(&lb))? != sab {
+        return Err("target.compare differs from hash.compare".into());
+    }
+    let equal = a == b;
+    if (sab != 0) != (equal || cand) {
+        return Err(format!("score = {} but equal = {} and candidate = {}", sab, equal, cand));
+    }
+    // candidate <=> index window sets intersect <=> reference windows intersect
+    let sa: BTreeSet<u64> = ia.iter().copied().collect();
+    let lib_intersect = ib.iter().any(|w| sa.contains(w));
+    let ra = ref_windows(a);
+    let ref_intersect = ref_windows(b).iter().any(|w| ra.contains(w));
+    if cand != lib_intersect || cand != ref_intersect {
+        return Err(format!(
+            "candidate = {}, index windows intersect = {}, shared 7-symbol window at the same effective block size = {}",
+            cand, lib_intersect, ref_intersect
+        ));
+    }
+    // relation-specific candidate entry points
+    let d = a.0 as i32 - b.0 as i32;
+    let spec = match d {
+        0 => Some(guarded(|| ta.is_comparison_candidate_near_eq(&lb))?),
+        -1 => Some(guarded(|| ta.is_comparison_candidate_near_lt(&lb))?),
+        1 => Some(guarded(|| ta.is_comparison_candidate_near_gt(&lb))?),
+        _ => None,
+    };
+    if let Some(sp) = spec {
+        if sp != cand {
+            return Err("is_comparison_candidate_near_* disagrees with is_comparison_candidate".into());
+        }
+    }
+    // short form, when representable
+    if a.2.len() <= 32 && b.2.len() <= 32 {
+        let sa = FuzzyHash::new_from_internals_near_raw(a.0, &a.1, &a.2);
+        let sb = FuzzyHash::new_from_internals_near_raw(b.0, &b.1, &b.2);
+        if guarded(|| sa.compare(&sb))? != sab || guarded(|| ta.is_comparison_candidate(&sb))? != cand {
+            return Err("short form gives a different score / candidate answer".into());
+        }
+    }
+    Ok((sab, cand))
+}
+
+pub fn replay(c: &Value) -> Result<(), String> {
+    let a = cparse(&c["a"]).ok_or("a")?;
+    let ia = check_single(&a)?;
+    if c["b"].is_null() {
+        return Ok(());
+    }
+    let b = cparse(&c["b"]).ok_or("b")?;
+    let ib = check_single(&b)?;
+    check_pair(&a, &b, &ia, &ib).map(|_| ())
+}
+
+/// normalized block hash strings with shared windows at various offsets
+fn strings() -> Vec<Vec<u8>> {
+    let r = ramp(22, 0);
+    let j = ramp(16, 40);
+    let mut v: Vec<Vec<u8>> = vec![
+        vec![],
+        ramp(6, 0),
+        ramp(7, 0),
+        ramp(8, 0),
+        r.clone(),
+        r[3..].to_vec(),
+        r[..10].to_vec(),
+        j.clone(),
+        {
+            let mut x = j[..9].to_vec();
+            x.extend_from_slice(&r[5..12]);
+            x
+        },
+        {
+            let mut x = r[8..15].to_vec();
+            x.extend_from_slice(&j[..5]);
+            x
+        },
+        {
+            let mut x = j[..4].to_vec();
+            x.extend_from_slice(&r[9..15]); // only 6 shared: near miss
+            x.extend_from_slice(&j[8..12]);
+            x
+        },
+        {
+            let mut x = r.clone();
+            x[11] = 63;
+            x
+        },
+        vec![0, 0, 0, 63, 63, 63, 0, 0, 0, 63, 63, 63, 0, 0, 0],
+        vec![0, 0, 0, 63, 63, 63, 0, 0, 0, 1],
+        vec![63, 63, 63, 0, 0, 0, 63, 63, 63, 0],
+        ramp(32, 1),
+        ramp(33, 1),
+        ramp(64, 0),
+        ramp(64, 2),
+        {
+            let mut x = ramp(57, 20);
+            x.extend_from_slice(&r[0..7]);
+            x
+        },
+    ];
+    v.sort();
+    v.dedup();
+    v
+}
+
+pub fn run(ctx: &Ctx) -> Report {
+    let mut rep = Report::new("model_checking");
+    let thorough = ctx.tier == Tier::Thorough;
+    // the window encoding itself: all 7-grams over {0, 1, 63}
+    let grams = crate::corpus::all_strings(&[0, 1, 63], 7).into_iter().filter(|s| s.len() == 7 && refmodel::is_normalized(s)).collect::<Vec<_>>();
+    let acc = par_shards(grams.len(), |i, acc| {
+        acc.evaluations += 1;
+        acc.nontrivial += 1;
+        for log in [0u8, 17, 30] {
+            let c: Content = (log, grams[i].clone(), grams[(i * 7 + 3) % grams.len()].clone());
+            if let Err(e) = check_single(&c) {
+                acc.violation(format!("windows of {}", rt::format(c.0, &c.1, &c.2)), e, json!({"a": cj(&c), "b": null}));
+            }
+        }
+        if i == 5 {
+            acc.sample(json!({"seven_gram": hex(&grams[i])}));
+        }
+    });
+    acc.into_report(&mut rep, "window_encoding_all_normalized_7grams_over_3_symbols");
+    // injectivity of the numeric encoding on that set
+    {
+        let mut seen = std::collections::BTreeMap::new();
+        for g in &grams {
+            let h = LongFuzzyHash::new_from_internals_near_raw(0, g, &[]);
+            let w: Vec<u64> = h.block_hash_1_numeric_windows().collect();
+            if let Some(prev) = seen.insert(w[0], g.clone()) {
+                rep.violation(Violation {
+                    signature: "numeric window collision".into(),
+                    what: format!("{} and {} encode to the same numeric window", hex(&prev), hex(g)),
+                    case: json!({"a": cj(&(0, g.clone(), vec![])), "b": null}),
+                });
+            }
+        }
+    }
+
+    // hash corpus: logs x (string, string)
+    let strs = strings();
+    let logs: Vec<u8> = if thorough { vec![0, 1, 2, 3, 4, 5, 6, 15, 16, 28, 29, 30] } else { vec![0, 1, 2, 3, 4, 5, 15, 28, 29, 30] };
+    let mut hashes: Vec<Content> = vec![];
+    for &l in &logs {
+        for (i, a) in strs.iter().enumerate() {
+            for (j, b) in strs.iter().enumerate() {
+                let keep = if thorough { true } else { (i + 2 * j) % 3 == 0 || i == j };
+                if keep {
+                    hashes.push((l, a.clone(), b.clone()));
+                }
+            }
+        }
+    }
+    hashes.sort();
+    hashes.dedup();
+    let n = hashes.len();
+    // per-hash window checks first
+    let singles: Vec<Result<Vec<u64>, String>> = {
+        use rayon::prelude::*;
+        hashes.par_iter().map(check_single).collect()
+    };
+    let mut idx: Vec<Vec<u64>> = Vec::with_capacity(n);
+    let mut acc = Acc::default();
+    for (i, r) in singles.into_iter().enumerate() {
+        acc.evaluations += 1;
+        acc.nontrivial += 1;
+        match r {
+            Ok(v) => idx.push(v),
+            Err(e) => {
+                acc.violation(format!("windows of {}", rt::format(hashes[i].0, &hashes[i].1, &hashes[i].2)), e, json!({"a": cj(&hashes[i]), "b": null}));
+                idx.push(vec![]);
+            }
+        }
+    }
+    let singles_ok = acc.violation_count == 0;
+    acc.into_report(&mut rep, "window_iterators_per_hash");
+    if singles_ok {
+        let acc = par_shards(n, |i, acc| {
+            for j in 0..n {
+                acc.evaluations += 1;
+                acc.nontrivial += 1;
+                match check_pair(&hashes[i], &hashes[j], &idx[i], &idx[j]) {
+                    Ok((s, cand)) => {
+                        acc.bump(&format!("score={:03}", s / 10 * 10));
+                        acc.count(if cand { "candidate_true" } else { "candidate_false" }, 1);
+                    }
+                    Err(e) => acc.violation(
+                        format!("pair {} | {}", rt::format(hashes[i].0, &hashes[i].1, &hashes[i].2), rt::format(hashes[j].0, &hashes[j].1, &hashes[j].2)),
+                        e,
+                        json!({"a": cj(&hashes[i]), "b": cj(&hashes[j])}),
+                    ),
+                }
+            }
+            if i == n / 2 {
+                acc.sample(json!({"a": cj(&hashes[i]), "b": cj(&hashes[n / 3])}));
+            }
+        });
+        acc.into_report(&mut rep, "all_pairs_of_hash_corpus");
+    }
+    // all 31 x 31 block size combinations with small contents
+    let small: Vec<(Vec<u8>, Vec<u8>)> = vec![(ramp(9, 0), ramp(8, 3)), (ramp(8, 3), ramp(9, 0)), (ramp(9, 0), vec![]), (vec![], ramp(8, 3))];
+    let acc = par_shards(31 * 31, |i, acc| {
+        let (la, lb) = ((i / 31) as u8, (i % 31) as u8);
+        for x in &small {
+            for y in &small {
+                let a: Content = (la, x.0.clone(), x.1.clone());
+                let b: Content = (lb, y.0.clone(), y.1.clone());
+                acc.evaluations += 1;
+                acc.nontrivial += 1;
+                let r = check_single(&a).and_then(|ia| check_single(&b).and_then(|ib| check_pair(&a, &b, &ia, &ib)));
+                match r {
+                    Ok((s, _)) => acc.bump(if s == 0 { "zero" } else { "non-zero" }),
+                    Err(e) => acc.violation(format!("sizes {} {} {} | {}", la, lb, rt::format(a.0, &a.1, &a.2), rt::format(b.0, &b.1, &b.2)), e, json!({"a": cj(&a), "b": cj(&b)})),
+                }
+            }
+        }
+    });
+    acc.into_report(&mut rep, "all_31x31_block_size_combinations_small_contents");
+    rep.set("hash_corpus_size", n);
+    rep.set("exhaustive", true);
+    rep.set(
+        "rule",
+        "normalized hashes (short and long forms) built from 20 block-hash strings with shared 7-symbol windows at various offsets, near-misses of 6, single edits, low-entropy strings and capacity lengths, at logs {0..5, 15, 28, 29, 30} (a third of the string pairs; thorough: all pairs of strings, logs add 6, 16): ALL ordered pairs — score in 0..=100, symmetric, 100 against itself, 0 when far, non-zero <=> equal or candidate, candidate symmetric and <=> library index-window sets intersect <=> reference 7-gram sets tagged with the effective block size intersect; per hash: every window iterator against the definition (slice, numeric = base-64 value, index = numeric | eff_log << 42 with eff_log = log+1 for block hash 2, 31 at the largest size), lengths and size hints; all 31x31 block-size combinations with small contents; all normalized 7-grams over {0,1,63} for the encoding and its injectivity.",
+    );
+    rep
+}
